@@ -194,7 +194,7 @@ def check_structure(res, b: programs.Built, m, where, program):
         if it["kind"] == "bdist" and b.objs[i].at is not b.out[it["at"]]:
             probs.append(("edges", f"item {i}: free-standing dist is not evaluated at the node it was given"))
     # variable level: outputs are the inverse of inputs
-    vs = list(m.vars.values())
+    vs = list(m.vars.values()) if not any(tag in ("completeness", "membership") for tag, _ in probs) else []
     for x in vs:
         for z in vs:
             if x is z:
